@@ -372,6 +372,37 @@ def gen_contract(rnd, decimals=True):
         funcs.append({"name": "set_" + pv["name"], "mut": "nonpayable",
                       "pos": [(f"k{j}", k) for j, k in enumerate(keys)] + [("val", p[1])], "kws": [], "ret": [],
                       "event": None, "kind": "setter", "var": pv["name"], "nkeys": len(keys)})
+    # optionally: a library module whose external functions / public variable are re-exported (`exports:`)
+    lib = None
+    if rnd.random() < 0.5:
+        lfuncs = []
+        for i in range(rnd.randint(1, 2)):
+            mut = rnd.choice(["pure", "view", "nonpayable", "payable"])
+            pos, kws = [], []
+            for j in range(rnd.randint(1, 3)):
+                for _ in range(30):
+                    t = g.vtype(2)
+                    if not contains(t, ("iface", "tuple", "struct", "flag")):
+                        break
+                else:
+                    t = ("int", False, 256)
+                pos.append((f"a{j}", t))
+            if rnd.random() < 0.5:
+                for _ in range(30):
+                    t = g.vtype(1)
+                    if not contains(t, ("iface", "tuple", "struct", "flag")):
+                        break
+                else:
+                    t = ("bool",)
+                e, v = literal(t, rnd)
+                kws.append(("k0", t, e, v))
+            allargs = pos + [(k[0], k[1]) for k in kws]
+            ret = [allargs[-1]] + ([allargs[0]] if len(allargs) > 1 and rnd.random() < 0.5 else [])
+            lfuncs.append({"name": f"lib_f{i}", "mut": mut, "pos": pos, "kws": kws, "ret": ret, "event": None, "kind": "echo",
+                           "in_lib": True})
+        lib = {"funcs": lfuncs, "var": "lib_total"}
+        funcs += lfuncs
+        pubvars.append({"name": "lib_total", "p": ("val", ("int", False, 256)), "kind": "exported"})
     ctor_payable = rnd.random() < 0.5
     imm = [pv for pv in pubvars if pv["kind"] == "immutable"][0]
     ctor = {"name": "__init__", "mut": "payable" if ctor_payable else "nonpayable",
@@ -395,37 +426,56 @@ def gen_contract(rnd, decimals=True):
             out.append(f"{pv['name']}: public({pann(pv['p'])})\n")
         elif pv["kind"] == "constant":
             out.append(f"{pv['name']}: public(constant({pann(pv['p'])})) = {pv['lit']}\n")
+        elif pv["kind"] == "exported":
+            pass  # declared in lib0.vy
         else:
             out.append(f"{pv['name']}: public(immutable({pann(pv['p'])}))\n")
     out.append("counter: uint256\n")
     out.append(f"@deploy\n{'@payable' + chr(10) if ctor_payable else ''}def __init__(i0: {ann(imm['p'][1])}):\n"
                f"    self.{imm['name']} = i0\n")
-    for f in funcs:
-        decos = "@external\n" + (f"@{f['mut']}\n" if f["mut"] != "nonpayable" else "") + ("@nonreentrant\n" if f.get("nonreentrant") else "")
-        args = [f"{n}: {ann(t)}" for n, t in f["pos"]] + [f"{n}: {ann(t)} = {e}" for n, t, e, _ in f["kws"]]
-        rett = ""
-        if f["ret"]:
-            rett = " -> " + (ann(f["ret"][0][1]) if len(f["ret"]) == 1 else "(" + ", ".join(ann(t) for _, t in f["ret"]) + ")")
-            if f.get("wrap1"):
-                rett = " -> (" + ann(f["ret"][0][1]) + ",)"
-        body = []
-        if f["kind"] == "echo":
-            if f["mut"] in ("nonpayable", "payable"):
-                body.append("self.counter += 1")
-            if f["event"]:
-                body.append(f"log {f['event']['name']}(" + ", ".join(f"{n}={n}" for n, _, _ in f["event"]["args"]) + ")")
-            if f["ret"]:
-                body.append("return " + (f"({f['ret'][0][0]},)" if f.get("wrap1") else ", ".join(n for n, _ in f["ret"])))
-            if not body:
-                body.append("pass")
-        elif f["kind"] == "raise":
-            body.append("self.counter += 1")
-            body.append(f"raise R0(" + ", ".join(f"{n}={n}" for n, _ in f["pos"]) + ")")
-        elif f["kind"] == "setter":
-            body.append(f"self.{f['var']}" + "".join(f"[k{j}]" for j in range(f["nkeys"])) + " = val")
-        out.append(f"{decos}def {f['name']}({', '.join(args)}){rett}:\n" + "".join(f"    {b}\n" for b in body))
+    libsrc = None
+    if lib is not None:
+        names = [f["name"] for f in lib["funcs"]] + [lib["var"]]
+        style = rnd.randrange(3)
+        exports = "lib0.__interface__" if style == 0 else ("(" + ", ".join("lib0." + n for n in names) + ")" if style == 1 else None)
+        if exports is None:
+            out.insert(1 if pragma_nonre else 0, "import lib0\ninitializes: lib0\n" + "".join(f"exports: lib0.{n}\n" for n in names))
+        else:
+            out.insert(1 if pragma_nonre else 0, f"import lib0\ninitializes: lib0\nexports: {exports}\n")
+    for which in ("main", "lib"):
+      chunk = []
+      for f in funcs:
+          if bool(f.get("in_lib")) != (which == "lib"):
+              continue
+          decos = "@external\n" + (f"@{f['mut']}\n" if f["mut"] != "nonpayable" else "") + ("@nonreentrant\n" if f.get("nonreentrant") else "")
+          args = [f"{n}: {ann(t)}" for n, t in f["pos"]] + [f"{n}: {ann(t)} = {e}" for n, t, e, _ in f["kws"]]
+          rett = ""
+          if f["ret"]:
+              rett = " -> " + (ann(f["ret"][0][1]) if len(f["ret"]) == 1 else "(" + ", ".join(ann(t) for _, t in f["ret"]) + ")")
+              if f.get("wrap1"):
+                  rett = " -> (" + ann(f["ret"][0][1]) + ",)"
+          body = []
+          if f["kind"] == "echo":
+              if f["mut"] in ("nonpayable", "payable"):
+                  body.append("self.lib_total += 1" if f.get("in_lib") else "self.counter += 1")
+              if f["event"]:
+                  body.append(f"log {f['event']['name']}(" + ", ".join(f"{n}={n}" for n, _, _ in f["event"]["args"]) + ")")
+              if f["ret"]:
+                  body.append("return " + (f"({f['ret'][0][0]},)" if f.get("wrap1") else ", ".join(n for n, _ in f["ret"])))
+              if not body:
+                  body.append("pass")
+          elif f["kind"] == "raise":
+              body.append("self.counter += 1")
+              body.append(f"raise R0(" + ", ".join(f"{n}={n}" for n, _ in f["pos"]) + ")")
+          elif f["kind"] == "setter":
+              body.append(f"self.{f['var']}" + "".join(f"[k{j}]" for j in range(f["nkeys"])) + " = val")
+          chunk.append(f"{decos}def {f['name']}({', '.join(args)}){rett}:\n" + "".join(f"    {b}\n" for b in body))
+      if which == "main":
+          out += chunk
+      elif lib is not None:
+          libsrc = "lib_total: public(uint256)\n\n" + "\n".join(chunk)
     src = "\n".join(out)
-    return {"pragma_nonreentrancy": pragma_nonre, "src": src, "funcs": funcs, "pubvars": pubvars, "events": events, "errors": errors, "ctor": ctor,
+    return {"lib": libsrc, "pragma_nonreentrancy": pragma_nonre, "src": src, "funcs": funcs, "pubvars": pubvars, "events": events, "errors": errors, "ctor": ctor,
             "structs": [s for s in g.structs], "flags": g.flags}
 
 
